@@ -290,12 +290,50 @@ def run_shard(desc):
             exp = gt.expected_wire(intent, s)
             wit = {'session': sname(k), 'surface': surface, 'route': t, 'negotiated_ref': {kk: (sorted(v) if isinstance(v, set) else v) for kk, v in ref.items()}}
             judge_route(res, k, ref, intent, exp, decs, surface, wit)
+        if surface == 'api' and route_objs and ci % 2 == 0:
+            # `announce route` hands the SAME parsed Route (and attribute set) to every neighbor the selector names
+            # (Configuration.announce_route: resolve_self only copies for next-hop self). A second neighbor of another kind
+            # (iBGP <-> eBGP, or another AS width) gets the very objects the first one already packed.
+            k2 = dict(k, ibgp=not k['ibgp'])  # another peer AS: another neighbor name, its own Adj-RIB-Out
+            if sname(k2) not in {sname(x) for x in kinds}:
+                res.count('shared-route:no-valid-second-session-kind')
+                continue
+            try:
+                conf1, nb1, neg1, ref1, _ = build(k, [])  # fresh Adj-RIB-Out caches: the routes were sent once above
+                conf2, nb2, neg2, ref2, ctext2 = build(k2, [])
+                from exabgp.rib import RIB
+
+                if nb1.rib.outgoing is nb2.rib.outgoing:
+                    res.inconclusive.append('two neighbors share one Adj-RIB-Out object in the harness')
+                    continue
+                nb1.rib.outgoing.clear_cache() if hasattr(nb1.rib.outgoing, 'clear_cache') else None
+                shared = []
+                for t, i in routes:
+                    shared += conf1.parse_route_text(t, 'announce')
+                both = {}
+                order = [(nb1, neg1, ref1, k), (nb2, neg2, ref2, k2)]
+                if ci % 8 >= 4:
+                    order.reverse()
+                for nbx, negx, refx, kx in order:
+                    both[sname(kx)] = (observed_updates(nbx, negx, refx, [nbx.resolve_self(x) for x in shared]), refx, kx)
+            except Exception as e:  # noqa
+                res.violation(f'C01/shared-route-raises:{type(e).__name__}', f'announcing one route to two neighbors raised {type(e).__name__}: {str(e)[:160]}', {'sessions': [sname(k), sname(k2)], 'routes': [t for t, _ in routes]}, 'encode')
+                continue
+            for name, (decs2, refx, kx) in both.items():
+                sx = {'ibgp': kx['ibgp'], 'local_as': kx['las'], 'asn4': refx['asn4'], 'local_addr': '127.0.0.1', 'addpath_send': refx['addpath_send']}
+                for d in decs2:
+                    if 'error' in d:
+                        res.violation('C01/undecodable-update', d['error'], {'session': name, 'shared_with': sorted(both), 'raw': d.get('raw', '')}, 'encode')
+                for t, intent in routes:
+                    wit = {'session': name, 'surface': 'api-shared', 'shared_with': sorted(both), 'flushed': [sname(o[3]) for o in order], 'route': t}
+                    judge_route(res, kx, refx, intent, gt.expected_wire(intent, sx), decs2, 'api-shared', wit)
+            res.ok('surface:api-shared-route')
         res.sample({'session': sname(k), 'surface': surface, 'route': routes[0][0] if routes else ''}, limit=3)
     return res
 
 
 REQUIRED_CLASSES = {
-    'quick': ['surface:config', 'surface:api', 'nexthop-self', 'default:origin:ibgp', 'default:origin:ebgp', 'default:as_path:ibgp', 'default:as_path:ebgp', 'default:local_pref:ibgp', 'default:local_pref:ebgp']
+    'quick': ['surface:config', 'surface:api', 'surface:api-shared-route', 'nexthop-self', 'default:origin:ibgp', 'default:origin:ebgp', 'default:as_path:ibgp', 'default:as_path:ebgp', 'default:local_pref:ibgp', 'default:local_pref:ebgp']
     + ['kw:' + n for n in ('origin', 'as_path', 'med', 'local_pref', 'atomic', 'aggregator', 'communities', 'ext_communities', 'large_communities', 'originator', 'cluster_list', 'unknown')],
 }
 REQUIRED_CLASSES['thorough'] = REQUIRED_CLASSES['quick']
